@@ -200,6 +200,12 @@ func TestC16Runs(t *testing.T) {
 		ok := true
 		for k := 0; k < nruns; k++ {
 			rp := runPlan{name: "scn" + strconv.Itoa(k%2), setupFailed: r.Chance(15)}
+			if i%3 == 0 {
+				// the same scenario twice: the first run records iterations, the setup of the second fails
+				rp.name = "scn0"
+				rp.setupFailed = k == 1
+				nruns = 2
+			}
 			iters := int(r.Range(1, 25))
 			failEvery := kit.Pick(r, 0, 2, 3)
 			for id := 1; id <= iters; id++ {
